@@ -196,7 +196,7 @@ def axioms_audit(prop, lean_path=None):
 # generated model (second tie: harness/pygen.py translates the pure kernels of the current source)
 # ---------------------------------------------------------------------------------------------
 
-GEN_COMMITTED = os.path.join(LEAN, 'RxGen', 'Kernels.lean')
+GEN_DIR = os.path.join(LEAN, 'RxGen')
 
 
 def _lean_path():
@@ -205,10 +205,10 @@ def _lean_path():
 
 
 def gen_audit(prop):
-    """Regenerate RxGen/Kernels.lean from the CURRENT source (REPO).  When the text equals the committed copy, the link
-    theorems built by `lake build` are about the current source.  Otherwise the fresh text and the property's link
-    modules are compiled out of tree (nothing under lean/ is touched, so concurrent runs against other source trees do not
-    interfere) and the link theorems must still check against the fresh definitions.
+    """Regenerate RxGen/Kernels.lean and RxGen/Handlers.lean from the CURRENT source (REPO).  When both texts equal the
+    committed copies, the link theorems built by `lake build` are about the current source.  Otherwise the fresh texts and the
+    property's link modules are compiled out of tree (nothing under lean/ is touched, so concurrent runs against other source
+    trees do not interfere) and the link theorems must still check against the fresh definitions.
     Returns (ok, info, lean_path_for_audit or None)."""
     reg = load_theorems().get(prop, {})
     mods = reg.get('gen_modules', [])
@@ -216,32 +216,35 @@ def gen_audit(prop):
     if not mods:
         return True, None, None
     import pygen
+    texts = {}
+    errs = {}
     try:
-        text, errs = pygen.generate(REPO)
+        for name, fn in (('Kernels', pygen.generate), ('Handlers', pygen.generate_handlers)):
+            texts[name], e = fn(REPO)
+            errs.update(e)
     except Exception as e:       # noqa
         return False, {'modules': mods, 'error': 'translator failed: %r' % (e,)}, None
     info['untranslatable'] = errs
-    info['kernels'] = len(pygen.KERNELS) + len(pygen.STAGES) - len(errs)
-    info['generated_sha'] = hashlib.sha256(text.encode()).hexdigest()[:16]
-    try:
-        committed = open(GEN_COMMITTED).read()
-    except OSError:
-        committed = None
-    info['same_as_committed'] = text == committed
-    if text == committed:
+    info['definitions'] = len(pygen.KERNELS) + len(pygen.STAGES) + len(pygen.HANDLERS) - len(errs)
+    info['generated_sha'] = {k: hashlib.sha256(v.encode()).hexdigest()[:16] for k, v in texts.items()}
+    same = True
+    for name, text in texts.items():
+        try:
+            same = same and open(os.path.join(GEN_DIR, name + '.lean')).read() == text
+        except OSError:
+            same = False
+    info['same_as_committed'] = same
+    if same:
         return True, info, None
     t = time.time()
     d = os.path.join(OUT, 'gen', prop)
     subprocess.run(['rm', '-rf', d])
     os.makedirs(os.path.join(d, 'RxGen'))
-    src = os.path.join(d, 'RxGen', 'Kernels.lean')
-    open(src, 'w').write(text)
     env = dict(os.environ)
     env['LEAN_PATH'] = d + os.pathsep + _lean_path()
     log = []
     ok = True
 
-    # lake env overrides LEAN_PATH: call lean directly with the search path we want
     def compile2(path, modname):
         # only RxGen/ may exist under d (d is first on the search path: a directory d/RxModel would hide the built model);
         # link modules do not import one another, their object files are not needed afterwards
@@ -252,16 +255,19 @@ def gen_audit(prop):
                            stderr=subprocess.STDOUT, text=True)
         errs_ = [l for l in p.stdout.splitlines() if 'error' in l] or p.stdout.splitlines()[:3]
         return p.returncode == 0, errs_[:6]
-    o, e = compile2(src, 'RxGen.Kernels')
-    if not o:
-        ok = False
-        log.append('generated kernels do not compile: %s' % '; '.join(e))
-    else:
+    for name, text in texts.items():
+        src = os.path.join(d, 'RxGen', name + '.lean')
+        open(src, 'w').write(text)
+        o, e = compile2(src, 'RxGen.' + name)
+        if not o:
+            ok = False
+            log.append('generated %s does not compile: %s' % (name, '; '.join(e)))
+    if ok:
         for m in mods:
             o, e = compile2(os.path.join(LEAN, *m.split('.')) + '.lean', m)
             if not o:
                 ok = False
-                log.append('%s no longer checks against the kernels generated from the current source: %s' % (m, '; '.join(e)))
+                log.append('%s no longer checks against the definitions generated from the current source: %s' % (m, '; '.join(e)))
                 break
     info['recheck_s'] = round(time.time() - t, 1)
     info['recheck_log'] = log
